@@ -266,15 +266,16 @@ def r205(ctx, R):
         hs = prog.func('%s:%s.__hash__' % (AC, cls))
         cmpn = [c for c in own_nodes(eq.node) if isinstance(c, ast.Compare)
                 and isinstance(c.ops[0], ast.Eq)]
-        eq_fields = sorted(src(c.left).replace('self.', '') for c in cmpn
-                           if src(c.left).startswith('self.') and src(
-                               c.comparators[0]) == src(c.left).replace(
-                                   'self.', 'other.'))
+        eq_fields = sorted(
+            C.psrc(eq, c.left).replace('self.', '') for c in cmpn
+            if C.psrc(eq, c.left).startswith('self.') and C.psrc(
+                eq, c.comparators[0]) == C.psrc(eq, c.left).replace(
+                    'self.', 'other.'))
         hcall = [c for c in own_nodes(hs.node) if isinstance(c, ast.Call)
                  and src(c.func) == 'hash']
         h_fields = []
         if len(hcall) == 1 and isinstance(hcall[0].args[0], ast.Tuple):
-            h_fields = sorted(src(x).replace('self.', '')
+            h_fields = sorted(C.psrc(hs, x).replace('self.', '')
                               for x in hcall[0].args[0].elts)
         R.ob('R20.5', '%s:eq-hash-agree' % cls,
              eq_fields == sorted(fields) and h_fields == sorted(fields),
@@ -282,14 +283,14 @@ def r205(ctx, R):
              'eq %s hash %s' % (eq_fields, h_fields), func=eq)
     eq = prog.func(AC + ':AllocationRequest.__eq__')
     hs = prog.func(AC + ':AllocationRequest.__hash__')
-    body = src(eq.node.body[-1]) if eq.node.body else ''
+    body = C.psrc(eq, eq.node.body[-1]) if eq.node.body else ''
     ok_eq = 'set(self.resource_requests) == set(other.resource_requests)' \
         in body and 'self.mappings == other.mappings' in body and isinstance(
             eq.node.body[-1], ast.Return) and isinstance(
                 eq.node.body[-1].value, ast.BoolOp) and isinstance(
                     eq.node.body[-1].value.op, ast.And) and len(
                         eq.node.body[-1].value.values) == 2
-    hb = ' '.join(src(s) for s in hs.node.body)
+    hb = ' '.join(C.psrc(hs, s) for s in hs.node.body)
     ok_h = 'self.resource_requests' in hb and 'hash(tuple(' in hb and \
         'sorted(' in hb and 'mappings' not in hb
     R.ob('R20.5', 'AllocationRequest:eq-hash-agree', ok_eq and ok_h,
